@@ -25,7 +25,10 @@ RULE = ("Rule-based state machine (<= 8 steps after initialisation) over "
         "data, misfit, gradient, jvec, jtvec must equal those of a FRESH "
         "simulation of the current model (computed once per process); "
         "exceptions on documented operations are violations; a mutated "
-        "copy/reloaded simulation must not affect its original.  "
+        "copy/reloaded simulation must not affect its original.  In "
+        "addition every ordered pair of state-changing operations (quick: 15 "
+        "operations, thorough: 28) is enumerated after a gradient and "
+        "followed by the queries.  "
         "Non-trivial = a query after a state-changing operation other than "
         "compute; distinct by history.")
 ASSUMPTIONS = [
@@ -464,10 +467,45 @@ def replay_history(spec, rec):
     rec.nt(spec)
 
 
-SUBS = {'history': replay_history}
+# Systematic complement of the random histories: from a fully computed state
+# (gradient), EVERY ordered pair of state-changing operations, followed by the
+# queries.  Hypothesis needs luck for a specific chain of four operations
+# (e.g. gradient -> copy('results') -> model+clean -> gradient); this
+# enumeration does not.
+OPS_QUICK = [['clean', 'computed'], ['clean', 'keepresults'],
+             ['clean', 'all'], ['copy', 'results'], ['copy', 'computed'],
+             ['dict', 'results'], ['file', 'h5', 'results'],
+             ['model', 'all'], ['model', 'computed'], ['jtvec'],
+             ['copy', 'all'], ['dict', 'computed'],
+             ['file', 'npz', 'computed'], ['file', 'json', 'results'],
+             ['jvec']]
+OPS_FULL = ([['clean', w] for w in WHATS_CLEAN] +
+            [['copy', w] for w in WHATS_STORE] +
+            [['dict', w] for w in WHATS_STORE] +
+            [['file', f, w] for f in FORMATS for w in WHATS_STORE] +
+            [['model', 'all'], ['model', 'computed'], ['jtvec'], ['jvec'],
+             ['compute']])
+
+
+def pair_specs(ops, cases=('isotropic', 'VTI')):
+    out = []
+    k = 0
+    for a in ops:
+        for b in ops:
+            k += 1
+            out.append({'config': {'case': cases[k % len(cases)],
+                                   'file': False},
+                        'history': [['gradient'], a, b, ['misfit'],
+                                    ['gradient']]})
+    return out
+
+
+SUBS = {'history': replay_history, 'pairs': replay_history}
 
 
 def run(ctx):
     ctx.regression(SUBS)
-    ctx.machine('history', HistoryMachine, ctx.n(120, 400), 8,
+    ctx.machine('history', HistoryMachine, ctx.n(80, 400), 8,
                 shrink=True)
+    ctx.enumerate('pairs', pair_specs(OPS_QUICK if ctx.quick else OPS_FULL),
+                  replay_history, exhaustive=True)
